@@ -8,7 +8,7 @@ import (
 	"strings"
 	"time"
 
-	"github.com/containerd/stargz-snapshotter/store"
+	"github.com/containerd/stargz-snapshotter/estargz/vrt"
 	"github.com/hanwen/go-fuse/v2/fuse"
 
 	"verif/lib/runner"
@@ -23,6 +23,13 @@ func basicsPart() runner.Part {
 			res.Broken = "fixture: " + err.Error()
 			return res
 		}
+		vrt.Run(vrt.Config{Chooser: func(vrt.ChoicePoint) int { return 0 }, KeepTimers: true}, func() { basics(fx, c, res) })
+		return res
+	}}
+}
+
+func basics(fx *fixture, c *runner.Ctx, res *runner.Result) *runner.Result {
+	{
 		w, err := newInst(fx, "fuse", c.Scratch, nil)
 		if err != nil {
 			res.Broken = err.Error()
@@ -75,7 +82,7 @@ func basicsPart() runner.Part {
 		res.States = 1
 		res.Transitions = res.Evaluations
 		return res
-	}}
+	}
 }
 
 func debug() {
@@ -100,33 +107,32 @@ func debug() {
 	os.MkdirAll(scratch, 0o755)
 	defer os.RemoveAll(scratch)
 	// trace
-	w, err := newInst(fx, mode, scratch, nil)
-	if err != nil {
-		fmt.Println(err)
-		os.Exit(2)
-	}
-	for _, o := range h {
-		n0 := w.reg.Count()
-		pre := w.st.Snapshot()
-		ob, cerr := w.step(o)
-		if w.resolutionStarted(o, pre) {
-			w.st.Quiesce(fx.images[o.Img-1].Spec, 20*time.Second)
+	vrt.Run(vrt.Config{Chooser: func(vrt.ChoicePoint) int { return 0 }, KeepTimers: true}, func() {
+		w, err := newInst(fx, mode, scratch, nil)
+		if err != nil {
+			fmt.Println(err)
+			os.Exit(2)
 		}
-		w.st.Spy()
-		fmt.Printf("%s -> ok=%v %s %s %s\n", o.describe(fx), ob.OK, ob.Status, ob.Detail, cerr)
-		for _, r := range w.reg.Requests()[n0:] {
-			fmt.Printf("      %s %s [%s]\n", r.Method, r.Path, fx.classify(&r))
-		}
-		fmt.Printf("   state: %s\n", w.canon(w.st.Snapshot()))
-		for ref, m := range w.st.Snapshot().ResolveCache {
-			for d, e := range m {
-				if e != "" {
-					fmt.Printf("   resolve error %s %s: %s\n", ref, w.symLayerDigest(d), e)
+		for _, o := range h {
+			n0 := w.reg.Count()
+			ob, cerr := w.step(o)
+			vrt.WaitIdle()
+			w.st.Spy()
+			fmt.Printf("%s -> ok=%v %s %s %s\n", o.describe(fx), ob.OK, ob.Status, ob.Detail, cerr)
+			for _, r := range w.reg.Requests()[n0:] {
+				fmt.Printf("      %s %s [%s]\n", r.Method, r.Path, fx.classify(&r))
+			}
+			fmt.Printf("   state: %s\n", w.render(w.st.Snapshot(), false))
+			for ref, m := range w.st.Snapshot().ResolveCache {
+				for d, e := range m {
+					if e != "" {
+						fmt.Printf("   resolve error %s %s: %s\n", ref, w.symLayerDigest(d), e)
+					}
 				}
 			}
 		}
-	}
-	w.close()
+		w.close()
+	})
 	if pf := os.Getenv("C16_PROF"); pf != "" {
 		f, _ := os.Create(pf)
 		pprof.StartCPUProfile(f)
@@ -140,7 +146,7 @@ func debug() {
 			os.Exit(2)
 		}
 	}
-	fmt.Printf("execute: %v per replay of %d ops; quiesce spins per replay %d\n", time.Since(t0)/N, len(h), store.VerifQuiesceSpins/N)
+	fmt.Printf("execute: %v per replay of %d ops\n", time.Since(t0)/N, len(h))
 	r, _ := execute(fx, mode, scratch, h, nil, true)
 	for _, v := range r.Viols {
 		fmt.Printf("VIOL %s: %s\n", v.Key, v.Msg)
@@ -185,7 +191,7 @@ func main() {
 		},
 		QuickBudget: 4 * time.Minute, ThoroughBudget: 30 * time.Minute,
 		Parts: func(tier string) []runner.Part {
-			return seqParts(tier)
+			return append(seqParts(tier), concParts(tier)...)
 		},
 	})
 }
